@@ -55,6 +55,15 @@ pub fn examine_texts(text_a: &str, text_b: &str, reference: Option<prog::RefRun>
     let a = run_real(text_a, FUEL);
     let b = run_real(text_b, FUEL);
     let mut rep = rep;
+    if spec.prop == "C13" {
+        for (which, run) in [("A", &a), ("B", &b)] {
+            if let Outcome::Value(v) = &run.outcome {
+                if let Some(why) = crate::oracle::cells_ok(v) {
+                    return Some(("cell-content-not-of-declared-type".into(), which.into(), why));
+                }
+            }
+        }
+    }
     if let Some(rep) = rep.as_deref_mut() {
         rep.evaluations += 2;
         rep.count(&format!("twinA:{}", a.outcome.tag().split(':').next().unwrap_or("")));
@@ -72,6 +81,17 @@ pub fn examine_texts(text_a: &str, text_b: &str, reference: Option<prog::RefRun>
         }
         if a.steps > 0 {
             rep.add("real_steps", a.steps);
+        }
+    }
+    // the generator places break / continue only inside loop bodies and return only inside function bodies (at any
+    // depth of blocks, branches, arms): a checker that rejects such a program does not let the exit act on its construct
+    if spec.prop == "C12" {
+        for (which, run) in [("A", &a), ("B", &b)] {
+            if let Outcome::Rejected(v, _) = &run.outcome {
+                if matches!(v.as_str(), "BreakOutsideLoop" | "ContinueOutsideLoop" | "ReturnOutsideFunction") {
+                    return Some((format!("valid-exit-rejected:{v}"), which.into(), format!("a break / continue / return placed inside its loop / function is rejected with {v}")));
+                }
+            }
         }
     }
     let depends_on_unspecified = reference.as_ref().is_some_and(|r| matches!(&r.outcome, RefOutcome::GiveUp(w) if w.contains("unspecified")));
@@ -176,8 +196,41 @@ pub fn examine_texts(text_a: &str, text_b: &str, reference: Option<prog::RefRun>
     None
 }
 
+/// C13: programs the checker must reject because they would put a value into a cell that its declared type does
+/// not admit; if a (changed) checker accepts one, every cell the interpreter holds afterwards is judged
+fn cell_negative_templates(rep: &mut Report) {
+    for src in crate::props::sound::NEGATIVE.iter().filter(|t| t.contains("mut ")) {
+        let run = run_real(src, FUEL);
+        rep.evaluations += 1;
+        if matches!(run.outcome, Outcome::Rejected(..)) {
+            rep.count("cell-negative-templates:rejected");
+            continue;
+        }
+        rep.count("cell-negative-templates:ACCEPTED");
+        if let Outcome::Panic(p) = &run.outcome {
+            if p.kind == PanicKind::Panic {
+                rep.violation(&format!("c13:negative-template:panic:{}", p.site()), &format!("(a program the checker is supposed to reject was accepted) panicked: {} :: {src}", p.short_msg()), "program-text", src);
+                continue;
+            }
+        }
+        if let Some(interp) = &run.interp {
+            // names are single letters in the templates
+            for name in ["c", "x", "u", "d", "a", "t", "s"] {
+                if let Some(v) = interp.get_variable(name) {
+                    if let Some(why) = crate::oracle::cells_ok(v) {
+                        rep.violation("c13:cell-content-not-of-declared-type", &format!("(a program the checker is supposed to reject was accepted) `{name}`: {why} :: {src}"), "program-text", src);
+                    }
+                }
+            }
+        }
+    }
+}
+
 pub fn run(cfg: &Cfg, rep: &mut Report, spec: &Spec) {
     let deadline = Deadline::new(cfg.budget_s);
+    if spec.prop == "C13" && cfg.shard == 0 {
+        cell_negative_templates(rep);
+    }
     let n = cfg.per_shard(spec.quick, spec.thorough);
     let mut reported = 0;
     for i in 0..n {
